@@ -10,7 +10,12 @@ package main
 //   - which refusals (nil, duplicate, stanza name) each registration option makes
 //     and whether the *Func wrappers refuse a nil function;
 //   - stanza.Is local names, the message-type normalisation table, the IQ types
-//     for which iqFallback stays silent and the error it sends.
+//     for which iqFallback stays silent and the error it sends;
+//   - forChildren: which name each MessageHandler / PresenceHandler call is given
+//     (the current child's, inside the loop; the zero xml.Name{} for the empty
+//     stanza after it), resolving which `start` is in scope;
+//   - bufReader.Token: whether a token obtained from the underlying reader is
+//     appended to the replay buffer before the error that came with it is looked at.
 // Control flow beyond that (routers, forChildren) is modelled by hand.
 
 import (
@@ -558,6 +563,201 @@ func (g *gen) mux() {
 		}
 		g.p("Definition iqtype_%s : bytes := %s.\n", strings.ToLower(strings.TrimSuffix(c, "IQ")), muxCoqStr(v))
 	}
+	g.p("\n")
+	g.forChildren(f)
+	g.bufReaderToken(f)
+}
+
+// lookupArgs collects, for every call m.MessageHandler(_, arg) / m.PresenceHandler(_, arg)
+// below n, where the name argument comes from. scope says what `start.Name`
+// denotes at that place.
+func (g *gen) lookupArgs(n ast.Node, where, startIs string, out map[string][]string) {
+	ast.Inspect(n, func(x ast.Node) bool {
+		ce, is := x.(*ast.CallExpr)
+		if !is {
+			return true
+		}
+		fn := muxExpr(ce.Fun)
+		if fn != "m.MessageHandler" && fn != "m.PresenceHandler" {
+			return true
+		}
+		kind := strings.ToLower(strings.TrimSuffix(strings.TrimPrefix(fn, "m."), "Handler"))
+		src := ""
+		if len(ce.Args) == 2 {
+			switch a := ce.Args[1].(type) {
+			case *ast.CompositeLit:
+				if muxExpr(a.Type) == "xml.Name" && len(a.Elts) == 0 {
+					src = "NsZero"
+				}
+			case *ast.SelectorExpr:
+				if muxExpr(a) == "start.Name" {
+					src = startIs
+				}
+			}
+			if muxExpr(ce.Args[0]) != "s.Type" {
+				src = ""
+			}
+		}
+		if src == "" {
+			g.errs = append(g.errs, fmt.Sprintf("mux/mux.go: forChildren: %s: cannot tell which type and name %s is given at %s", where, fn, g.fset.Position(ce.Pos())))
+			src = "NsZero"
+		}
+		out[kind] = append(out[kind], src)
+		return true
+	})
+}
+
+// forChildren reads the name arguments of the lookups made per child and for
+// the empty stanza.
+func (g *gen) forChildren(f *ast.File) {
+	g.p("Inductive name_src := NsZero | NsStanza | NsChild. (* xml.Name{}; the stanza's own start.Name; the current child's start.Name *)\n")
+	child, wild := map[string][]string{}, map[string][]string{}
+	fd := funcDecl(f, "forChildren")
+	if fd == nil || fd.Body == nil {
+		g.errs = append(g.errs, "mux/mux.go: func forChildren not found")
+	} else {
+		hasStart := false
+		for _, p := range fd.Type.Params.List {
+			for _, n := range p.Names {
+				if n.Name == "start" && muxExpr(p.Type) == "*xml.StartElement" {
+					hasStart = true
+				}
+			}
+		}
+		if !hasStart {
+			g.errs = append(g.errs, "mux/mux.go: forChildren: no parameter start *xml.StartElement")
+		}
+		loops, blocks := 0, 0
+		for _, st := range fd.Body.List {
+			switch s := st.(type) {
+			case *ast.ForStmt:
+				loops++
+				if s.Init != nil || s.Post != nil || muxExpr(s.Cond) != "iterator.Next()" {
+					g.errs = append(g.errs, "mux/mux.go: forChildren: the child loop is not `for iterator.Next()`")
+				}
+				// the loop body must begin by shadowing start with the child's start element
+				shadow := false
+				if len(s.Body.List) > 0 {
+					if as, is := s.Body.List[0].(*ast.AssignStmt); is && as.Tok == token.DEFINE && len(as.Lhs) == 2 && len(as.Rhs) == 1 &&
+						muxExpr(as.Lhs[0]) == "start" && muxExpr(as.Rhs[0]) == "iterator.Current()" {
+						shadow = true
+					}
+				}
+				startIs := "NsStanza"
+				if shadow {
+					startIs = "NsChild"
+				}
+				g.lookupArgs(s.Body, "child loop", startIs, child)
+			case *ast.IfStmt:
+				if muxExpr(s.Cond) == "len(r.buf)==2" && loops == 1 {
+					blocks++
+					g.lookupArgs(s.Body, "empty stanza", "NsStanza", wild)
+				} else {
+					g.lookupArgs(s, "outside the loop and the empty-stanza block", "NsStanza", map[string][]string{})
+				}
+			case *ast.AssignStmt:
+				for _, l := range s.Lhs {
+					if muxExpr(l) == "start" {
+						g.errs = append(g.errs, "mux/mux.go: forChildren: start is reassigned")
+					}
+				}
+			}
+		}
+		if loops != 1 || blocks != 1 {
+			g.errs = append(g.errs, "mux/mux.go: forChildren: expected one child loop followed by one `if len(r.buf) == 2` block")
+		}
+	}
+	for _, site := range []struct {
+		name string
+		m    map[string][]string
+	}{{"child", child}, {"wildcard", wild}} {
+		for _, kind := range []string{"message", "presence"} {
+			v := site.m[kind]
+			if len(v) != 1 {
+				g.errs = append(g.errs, fmt.Sprintf("mux/mux.go: forChildren: expected exactly one %s lookup for %s, found %d", site.name, kind, len(v)))
+				v = []string{"NsZero"}
+			}
+			g.p("Definition %s_lookup_arg_%s : name_src := %s.\n", site.name, kind, v[0])
+		}
+	}
+}
+
+// bufReaderToken reads the order of "append the token to the buffer" and "look
+// at the error" after the call to the underlying reader.
+func (g *gen) bufReaderToken(f *ast.File) {
+	var fd *ast.FuncDecl
+	for _, d := range f.Decls {
+		if x, is := d.(*ast.FuncDecl); is && x.Name.Name == "Token" && x.Recv != nil && len(x.Recv.List) == 1 && muxExpr(x.Recv.List[0].Type) == "*bufReader" {
+			fd = x
+		}
+	}
+	withErr := true
+	bad := func(why string) {
+		g.errs = append(g.errs, "mux/mux.go: bufReader.Token: "+why)
+	}
+	if fd == nil || fd.Body == nil {
+		bad("method not found")
+	} else {
+		called, buffered, earlyRet, returned := false, false, false, false
+		for _, st := range fd.Body.List {
+			if !called {
+				if as, is := st.(*ast.AssignStmt); is && len(as.Lhs) == 2 && len(as.Rhs) == 1 && muxExpr(as.Lhs[0]) == "tok" && muxExpr(as.Lhs[1]) == "err" && muxExpr(as.Rhs[0]) == "r.r.Token()" {
+					called = true
+				}
+				continue
+			}
+			if returned {
+				bad("statements after the final return")
+				break
+			}
+			switch s := st.(type) {
+			case *ast.IfStmt:
+				cond := muxExpr(s.Cond)
+				switch {
+				case cond == "tok!=nil" && s.Init == nil && s.Else == nil && !buffered:
+					appends, bumps := false, false
+					for _, b := range s.Body.List {
+						switch x := b.(type) {
+						case *ast.AssignStmt:
+							if len(x.Lhs) == 1 && len(x.Rhs) == 1 && muxExpr(x.Lhs[0]) == "r.buf" && muxExpr(x.Rhs[0]) == "append(r.buf,tok)" {
+								appends = true
+							}
+						case *ast.IncDecStmt:
+							if muxExpr(x.X) == "r.offset" && x.Tok == token.INC {
+								bumps = true
+							}
+						}
+					}
+					if !appends || !bumps {
+						bad("the tok != nil block does not append to r.buf and advance r.offset")
+					}
+					buffered = true
+				case cond == "err!=nil" && s.Init == nil && s.Else == nil && len(s.Body.List) == 1:
+					rs, is := s.Body.List[0].(*ast.ReturnStmt)
+					if !is || len(rs.Results) != 2 || muxExpr(rs.Results[0]) != "tok" || muxExpr(rs.Results[1]) != "err" {
+						bad("unsupported error branch")
+					}
+					if !buffered {
+						withErr = false
+					}
+					earlyRet = true
+				default:
+					bad("unsupported statement after the call to the underlying reader: if " + cond)
+				}
+			case *ast.ReturnStmt:
+				returned = true
+				if len(s.Results) != 2 || muxExpr(s.Results[0]) != "tok" || !(muxExpr(s.Results[1]) == "err" || (earlyRet && muxExpr(s.Results[1]) == "nil")) {
+					bad("the final return is not `return tok, err`")
+				}
+			default:
+				bad("unsupported statement after the call to the underlying reader")
+			}
+		}
+		if !called || !buffered || !returned {
+			bad("expected `tok, err := r.r.Token()`, a `tok != nil` block that buffers, and a final return")
+		}
+	}
+	g.p("Definition bufreader_buffers_token_with_error : bool := %s. (* a token that comes with an error is appended to the buffer all the same *)\n", muxCoqBool(withErr))
 }
 
 func muxRet(s ast.Stmt) string {
